@@ -415,6 +415,14 @@ func (m *Machine) goValue(fr *frame, t types.Type, v Value, depth int) (interfac
 	case nil:
 		return nil, true
 	}
+	// a value with symbolic leaves is never formatted: String()/Error() methods (time.Time.String runs
+	// the whole calendar arithmetic) would fork on the symbolic parts only to build a log/error text
+	if isSymbolic(v) {
+		return nil, false
+	}
+	if p, ok := v.(*Value); ok && p != nil && isSymbolic(*p) {
+		return nil, false
+	}
 	// error / Stringer
 	if t != nil {
 		for _, name := range []string{"Error", "String"} {
